@@ -408,7 +408,11 @@ def run_job(name, run, *, timeout_ms=60000, max_paths=20000, prune=True, prune_t
                     verdicts.append({"obligation": f"{tag}/{cname}", "verdict": "sat", "time_s": 0.0, "kind": "claim", "model": pre,
                                      "reason": "claim false at a concrete point run through the encoding (concolic); handed to the replay like a solver model"})
                     continue
-                r, dt, mdl = solve.check(C, cf, timeout_ms, inputs=inputs, cons=cons + proved)
+                if z3.is_false(cf) and feas == "sat":
+                    # a claim that is literally False on a path with a reachability witness: its negation holds on the whole path
+                    r, dt, mdl = "sat", 0.0, {}
+                else:
+                    r, dt, mdl = solve.check(C, cf, timeout_ms, inputs=inputs, cons=cons + proved)
                 v = {"obligation": f"{tag}/{cname}", "verdict": r, "time_s": round(dt, 3), "kind": "aux" if cname.startswith("(internal)") else "claim"}
                 if mdl is not None:
                     v["model"] = mdl
